@@ -8,6 +8,7 @@ from exactly_lib.impls.types.string_source.contents.contents_via_write_to import
 from exactly_lib.type_val_prims.string_source.contents import StringSourceContents
 from exactly_lib.util.file_utils import spooled_file
 from exactly_lib.util.file_utils.dir_file_space import DirFileSpace
+from exactly_lib.util.str_ import read_lines
 
 
 def frozen__from_write(mem_buff_size: int,
@@ -82,7 +83,7 @@ class _StringSourceContentsOfConstStrAndExistingPath(StringSourceContents):
     @contextmanager
     def as_lines(self) -> ContextManager[Iterator[str]]:
         if self._contents_as_lines is None:
-            self._contents_as_lines = self._contents_as_str.splitlines(keepends=True)
+            self._contents_as_lines = read_lines.split_lines__keep_ends(self._contents_as_str)
 
         yield iter(self._contents_as_lines)
 
